@@ -1,3 +1,101 @@
-"""Sensitivity self-test (thorough tier) -- filled in later."""
-def run(prop, res):
-    return
+"""Sensitivity self-test of the rules (thorough tier).
+
+Each variant is an in-memory edit of the *current* sources (never written to
+disk, never executed): a breaking variant must make the property's check
+report a new finding, a benign variant must leave it silent.  A variant whose
+anchor text is absent from the current tree is skipped.  Results go to the
+evidence file; they never turn into a VIOLATION of the real tree.
+"""
+from __future__ import annotations
+
+import os
+from concurrent.futures import ProcessPoolExecutor
+
+from .core import PKG_REL, REPO, Program
+from .report import Result
+
+
+def _apply(variant) -> dict[str, str] | None:
+    overrides: dict[str, str] = {}
+    for rel, old, new in variant["edits"]:
+        path = REPO / PKG_REL / rel
+        key = f"{PKG_REL}/{rel}"
+        src = overrides.get(key)
+        if src is None:
+            if not path.exists():
+                return None
+            src = path.read_text()
+        if src.count(old) != 1:
+            return None
+        overrides[key] = src.replace(old, new)
+    return overrides
+
+
+def _run_variant(args):
+    prop, variant, base_ids, base_errs = args
+    from .main import run_property
+    ov = _apply(variant)
+    if ov is None:
+        return variant["name"], "skipped", []
+    try:
+        prog = Program(overrides=ov)
+        res = run_property(prop, "quick", prog)
+    except Exception as e:  # pragma: no cover
+        return variant["name"], f"crash: {e!r}", []
+    new = [f.ident() for f in res.findings if f.ident() not in base_ids]
+    new_err = [e for e in res.errors if e not in base_errs]
+    if variant["expect"] == "fire":
+        want_rule = variant.get("rule")
+        hit = [i for i in new if not want_rule or i.startswith(want_rule + "|")]
+        if hit:
+            return variant["name"], "fired", hit[:3]
+        if new:
+            return variant["name"], "fired-other-rule", new[:3]
+        if new_err:
+            return variant["name"], "analysis-error-only", new_err[:2]
+        return variant["name"], "MISSED", []
+    else:
+        if new or new_err:
+            return variant["name"], "FALSE-ALARM", (new + new_err)[:3]
+        return variant["name"], "silent", []
+
+
+def run(prop: str, res: Result) -> None:
+    from .variants import VARIANTS
+    variants = VARIANTS.get(prop, [])
+    if not variants:
+        res.extra["selftest"] = {"variants": 0}
+        return
+    base_ids = {f.ident() for f in res.findings}
+    base_errs = list(res.errors)
+    jobs = [(prop, v, base_ids, base_errs) for v in variants]
+    workers = min(16, len(jobs), os.cpu_count() or 1)
+    if workers > 1:
+        with ProcessPoolExecutor(max_workers=workers) as ex:
+            outs = list(ex.map(_run_variant, jobs))
+    else:
+        outs = [_run_variant(j) for j in jobs]
+    table = []
+    bad = []
+    for (name, verdict, detail), v in zip(outs, variants):
+        table.append({"variant": name, "expect": v["expect"],
+                      "verdict": verdict, "detail": detail})
+        if verdict in ("MISSED", "FALSE-ALARM") or verdict.startswith("crash"):
+            bad.append(f"{name}: {verdict} {detail}")
+    res.extra["selftest"] = {
+        "variants": len(variants),
+        "fired": sum(1 for _, v, _ in outs if v.startswith("fired")),
+        "silent": sum(1 for _, v, _ in outs if v == "silent"),
+        "skipped": sum(1 for _, v, _ in outs if v == "skipped"),
+        "analysis_error_only": sum(1 for _, v, _ in outs
+                                   if v == "analysis-error-only"),
+        "problems": bad,
+        "table": table,
+    }
+    for b in bad:
+        res.notes.append(f"self-test: {b}")
+    print(f"   self-test: {len(variants)} variants, "
+          f"{res.extra['selftest']['fired']} fired, "
+          f"{res.extra['selftest']['silent']} silent, "
+          f"{res.extra['selftest']['skipped']} skipped, "
+          f"{len(bad)} problems")
